@@ -39,6 +39,314 @@ def roots(F):
     return out
 
 
+# --------------------------------------------------------------------------
+# structural helpers (exact shapes; see mutants/C20/REPORT.md "Rule fixes")
+# --------------------------------------------------------------------------
+
+DRAW_TRAITS = ('Rng', 'RngExt', 'RngCore', 'TryRng', 'TryRngCore')
+
+
+def _is_call(d, *names):
+    """d IS a call node (not merely contains one) whose callee is one of names (`Tr::m` form of `<X as Tr>::m` accepted)"""
+    return isinstance(d, tuple) and d[0] == 'call' and any(d[1] == n or D._trait_form(d[1]) == n or path_matches(d[2], n) for n in names)
+
+
+def _self_field(d, name):
+    """d IS `<param>.name` (field of a parameter, e.g. self.rng)"""
+    return isinstance(d, tuple) and d[0] == 'field' and d[2] == name and isinstance(d[1], tuple) and d[1][0] == 'param'
+
+
+def _param_index(body, name):
+    for i in range(1, body.argc + 1):
+        if body.locals[i][1] == name:
+            return i
+    return None
+
+
+VIEW_METHODS = ('index_mut', 'index', 'as_mut', 'as_mut_slice', 'as_slice', 'deref_mut', 'deref', 'borrow_mut', 'as_ref', 'borrow')
+
+
+def _alias_root(body, operand):
+    """the local an operand is a plain copy / move / (re)borrow / unsizing cast of: follows single-definition temporaries
+    `_a = move _b`, `_a = &mut _b`, `_a = &mut (*_b)`, `_a = _b as &mut [u8]` back to the first local that is not such a
+    temporary.  None for constants."""
+    if operand[0] not in ('c', 'm'):
+        return None
+    pl = operand[1]
+    seen = set()
+    while True:
+        if any(e != '*' for e in pl[1]):
+            return None
+        l = pl[0]
+        if l in seen:
+            return l
+        seen.add(l)
+        defs = body.defs_of(l)
+        if len(defs) == 1 and defs[0][0] == 'call' and short(defs[0][2].f).split('::')[-1] in VIEW_METHODS and defs[0][2].args and defs[0][2].args[0][0] in ('c', 'm'):
+            pl = defs[0][2].args[0][1]     # `&mut buf[..]`, `buf.as_mut()` ... : a view of the same buffer
+            continue
+        if len(defs) != 1 or defs[0][0] != 'stmt':
+            return l
+        rv = defs[0][3]
+        nxt = None
+        if rv[0] == 'use' and rv[1][0] in ('c', 'm'):
+            nxt = rv[1][1]
+        elif rv[0] in ('ref', 'ptr'):
+            nxt = rv[2]
+        elif rv[0] == 'cast' and rv[2][0] in ('c', 'm'):
+            nxt = rv[2][1]
+        if nxt is None or any(e != '*' for e in nxt[1]):
+            return l
+        pl = nxt
+
+
+def _is_draw(c):
+    return (c.tr or '').split('::')[-1] in DRAW_TRAITS and short(c.f).split('::')[-1] in ('fill_bytes', 'fill', 'try_fill_bytes', 'try_fill')
+
+
+def _seed_flows(F, ac, cn):
+    """Endpoint::add_connection hands Connection::new, as its `rng_seed` argument, a value drawn from `self.rng`:
+    either the result of a draw (`self.rng.random()`), or a buffer local that a dominating `self.rng.fill_bytes(&mut buf)`
+    filled and that is not reassigned afterwards.  Returns (ok, detail)."""
+    pi = _param_index(cn, 'rng_seed')
+    if pi is None:
+        return False, 'Connection::new has no parameter rng_seed'
+    sites = [c for c in ac.calls() if c.bb in ac.live_blocks() and c.f == cn.id]
+    if not sites:
+        return False, 'add_connection does not call Connection::new'
+    for c in sites:
+        if pi - 1 >= len(c.args):
+            return False, 'argument missing'
+        alts = flat(arg_desc(F, c, pi - 1))
+        if all(x[0] == 'call' and x[1].split('::')[-1] in ('random', 'gen') and x[3] and _self_field(x[3][0], 'rng') for x in alts):
+            continue
+        root = _alias_root(ac, c.args[pi - 1])
+        if root is None:
+            return False, 'the rng_seed argument is %s' % D.render(arg_desc(F, c, pi - 1))[:80]
+        fills = [f for f in ac.calls() if f.bb in ac.live_blocks() and _is_draw(f) and len(f.args) >= 2 and _self_field(arg_desc(F, f, 0), 'rng')
+                 and _alias_root(ac, f.args[1]) == root and f.bb != c.bb and ac.dominates(f.bb, c.bb)]
+        if not fills:
+            return False, 'the buffer passed as rng_seed (%s) is not the one filled from self.rng' % D.render(arg_desc(F, c, pi - 1))[:80]
+        # nothing else gets hold of the buffer (a later `buf.fill(0)` / second draw would replace the seed)
+        for o in ac.calls():
+            if o.bb in ac.live_blocks() and o is not c and o not in fills and not is_noise(o) and short(o.f).split('::')[-1] not in VIEW_METHODS and any(_alias_root(ac, a) == root for a in o.args):
+                return False, 'the seed buffer is also handed to %s' % short(o.f)
+        # no whole re-definition of the buffer that is not itself before a fill
+        for df in ac.defs_of(root):
+            bb = df[1] if df[0] != 'arg' else 0
+            if df[0] in ('stmt', 'call', 'field', 'callfield', 'sd') and not any(ac.dominates(bb, f.bb) for f in fills):
+                return False, 'the seed buffer is overwritten after being filled'
+    return True, ''
+
+
+def _top_args(ty):
+    """top-level generic arguments of `path<..>` ; (path, [args])"""
+    i = ty.find('<')
+    if i < 0 or not ty.endswith('>'):
+        return ty, []
+    inner = ty[i + 1:-1]
+    out, depth, cur = [], 0, ''
+    for ch in inner:
+        if ch in '<([':
+            depth += 1
+        elif ch in '>)]':
+            depth -= 1
+        if ch == ',' and depth == 0:
+            out.append(cur.strip())
+            cur = ''
+        else:
+            cur += ch
+    if cur.strip():
+        out.append(cur.strip())
+    return ty[:i], out
+
+
+DET_HASHERS = ('FxBuildHasher', 'BuildHasherDefault', 'IdentityBuildHasher')
+
+
+def _hash_coll(ty):
+    """(kind, hasher) when ty is (a reference to) std HashMap / HashSet; hasher is the collection's OWN hasher
+    (top-level generic argument; defaulted = RandomState), not that of a nested value type.  None otherwise."""
+    t = ty.strip()
+    while t.startswith('&'):
+        t = t[1:].strip()
+        if t.startswith("'"):
+            t = t.split(' ', 1)[1].strip() if ' ' in t else t
+        if t.startswith('mut '):
+            t = t[4:].strip()
+    path, args = _top_args(t)
+    last = path.split('::')[-1]
+    if last == 'HashMap':
+        return 'HashMap', (args[2] if len(args) >= 3 else 'RandomState')
+    if last == 'HashSet':
+        return 'HashSet', (args[1] if len(args) >= 2 else 'RandomState')
+    return None
+
+
+def _det_hasher(h):
+    path, _ = _top_args(h)
+    return path.split('::')[-1] in DET_HASHERS
+
+
+_CLOCKY = {}
+
+
+def _clock_reachers(F):
+    """canonical paths of quinn-proto functions / closures from which a clock or entropy leaf is reachable over resolved
+    calls (closures attributed to their parent, component boundaries not crossed) — unbounded depth"""
+    k = id(F)
+    if k in _CLOCKY:
+        return _CLOCKY[k]
+    direct = set()
+    rev = {}
+    canon2root = {}
+    for b in F.code_bodies('quinn_proto'):
+        r = F.root_of(b)
+        canon2root[b.canon] = r.id
+        live = b.live_blocks()
+        for c in b.calls():
+            if c.bb not in live or is_noise(c):
+                continue
+            if c.is_(*LEAVES) or any(l in canon(c.f) for l in ('::OsRng', '::SysRng', 'ThreadRng')):
+                direct.add(r.id)
+                continue
+            if is_boundary_call(c):
+                continue
+            if c.k in ('item', 'closurecall') and c.f in F.bodies and F.bodies[c.f].crate == 'quinn_proto':
+                rev.setdefault(F.root_of(F.bodies[c.f]).id, set()).add(r.id)
+    reach = set(direct)
+    stack = list(direct)
+    while stack:
+        x = stack.pop()
+        for y in rev.get(x, ()):
+            if y not in reach:
+                reach.add(y)
+                stack.append(y)
+    res = {cn for cn, rid in canon2root.items() if rid in reach}
+    _CLOCKY[k] = res
+    return res
+
+
+def _is_values(d):
+    """d is Timer::VALUES, possibly behind `.iter()` / `.into_iter()` / `.copied()` / `.cloned()`"""
+    while isinstance(d, tuple) and d[0] == 'call' and d[1].split('::')[-1] in ('iter', 'into_iter', 'copied', 'cloned') and d[3]:
+        d = d[3][0]
+    return isinstance(d, tuple) and d[0] == 'const' and (d[3] == 'Timer::VALUES' or d[3].endswith('::Timer::VALUES'))
+
+
+def _stop_all_sites(F, body, depth=2):
+    """blocks of `body` that stop EVERY timer: the head (`next` call) of a loop over Timer::VALUES in which every iteration
+    passes `<..>.timers.stop(<the element>)` and which is only left through the iterator's None edge; or a call of a
+    crate-local function all of whose normal paths pass such a block."""
+    res = set()
+    live = body.live_blocks()
+    rets = set(body.return_blocks())
+    for nx in body.calls():
+        if nx.bb not in live or short(nx.f).split('::')[-1] != 'next' or not nx.args or not _is_values(arg_desc(F, nx, 0)):
+            continue
+        for br in branches(F, body):
+            if br.desc[0] != 'discr' or not is_site(br.desc[1], nx):
+                continue
+            t_some = br.target(STD_VARIANTS['Option']['Some'])
+            stops = set()
+            for c in body.calls_to('TimerTable::stop'):
+                a0, a1 = arg_desc(F, c, 0), arg_desc(F, c, 1)
+                if a0[0] == 'field' and a0[2] == 'timers' and a1[0] == 'field' and a1[2] == '0' and a1[1][0] == 'variant' and a1[1][2] == 'Some' and is_site(a1[1][1], nx):
+                    stops.add(c.bb)
+            if stops and path_avoiding(body, [t_some], rets | {nx.bb}, stops) is None and path_avoiding(body, [t_some], rets, {nx.bb}) is None:
+                res.add(nx.bb)
+    if depth > 0:
+        for c in body.calls():
+            if c.bb in live and c.k == 'item' and c.f in F.bodies and F.bodies[c.f].kind == 'fn' and F.bodies[c.f].crate == 'quinn_proto' and not is_noise(c):
+                cb = F.bodies[c.f]
+                sub = _stop_all_sites(F, cb, depth - 1)
+                if sub and path_avoiding(cb, [0], cb.return_blocks(), sub) is None:
+                    res.add(c.bb)
+    return res
+
+
+def _endpoint_seed(F, en):
+    """Endpoint::new: on the Some edge of the branch on `config.rng_seed` the generator stored in Endpoint.rng is
+    from_seed(<that payload>); the OS-seeded alternative is confined to the None edge."""
+    def payload(d):
+        return (d[0] == 'field' and d[2] == '0' and d[1][0] == 'variant' and d[1][2] == 'Some' and d[1][1][0] == 'field' and d[1][1][2] == 'rng_seed'
+                and D.has_param(d[1][1][1]))
+    brs = [br for br in branches(F, en) if br.desc[0] == 'discr' and br.desc[1][0] == 'field' and br.desc[1][2] == 'rng_seed' and D.has_param(br.desc[1][1])]
+    if len(brs) != 1:
+        return False, 'no single branch on config.rng_seed'
+    br = brs[0]
+    t_some, t_none = br.target(STD_VARIANTS['Option']['Some']), br.target(STD_VARIANTS['Option']['None'])
+    cons = [c for c in constructions(F, 'endpoint::Endpoint', None, crate='quinn_proto') if c.adt.split('<')[0].endswith('endpoint::Endpoint') and F.root_of(c.body).id == en.id]
+    if not cons:
+        return False, 'Endpoint::new does not construct Endpoint'
+    seeded = 0
+    for c in cons:
+        op = c.field_op('rng')
+        if op is None:
+            return False, 'no rng field'
+        for x in flat(describer(F, c.body).operand(op, c.bb, c.idx)):
+            if _is_call(x, 'SeedableRng::from_seed') and len(x[3]) == 1 and payload(x[3][0]):
+                if x[4] in en.reachable_from(t_none, avoid=[br.bb]) or x[4] not in en.reachable_from(t_some, avoid=[br.bb]):
+                    return False, 'from_seed(seed) is not on the Some edge'
+                seeded += 1
+            elif D.has_call(x, 'SeedableRng::try_from_rng', 'SeedableRng::from_os_rng', 'SeedableRng::from_rng'):
+                sites = [y[4] for y in walk(x) if y[0] == 'call' and len(y) > 4 and y[1].split('::')[-1] in ('try_from_rng', 'from_os_rng', 'from_rng')]
+                if any(b in en.reachable_from(t_some, avoid=[br.bb]) for b in sites):
+                    return False, 'the OS-seeded generator is reachable although a seed is configured'
+            else:
+                return False, 'Endpoint.rng may be %s' % D.render(x)[:100]
+    if not seeded:
+        return False, 'Endpoint.rng is never StdRng::from_seed(<configured seed>)'
+    return True, ''
+
+
+def _expiry_relation(F, ie):
+    """TimerTable::is_expired(timer, after) == `self.data[timer]` is Some(d) with d <= after, in one of the forms
+    `self.data[..].is_some_and(|d| d <= after)` or `match self.data[..] { Some(d) => d <= after, None => false }`
+    (comparison direction and negations normalised).  Both operands are identified: the deadline is the payload of the
+    table slot / the closure parameter, the bound is the Instant parameter of is_expired (captured by the closure)."""
+    inst = [('param', i, ie.locals[i][1]) for i in range(1, ie.argc + 1) if ie.locals[i][0].split('<')[0].endswith('Instant')]
+    if len(inst) != 1:
+        return False, 'is_expired does not take exactly one Instant'
+    aft = inst[0]
+
+    def slot(d):
+        return d[0] == 'index' and _self_field(d[1], 'data')
+
+    def le(d, is_deadline, is_bound):
+        rel = relation_on(d, True)
+        return rel is not None and rel[0] == 'Le' and is_deadline(rel[1]) and is_bound(rel[2]) and not (D.const_offsets(rel[1]) | D.const_offsets(rel[2]))
+    alts = [x for _, d in ret_descs(F, ie) for x in flat(d)]
+    if not alts:
+        return False, 'no return value'
+    real = 0
+    for x in alts:
+        if x[0] == 'const' and str(x[2]) in ('0', 'false'):
+            continue   # None => false
+        if _is_call(x, 'Option::is_some_and') and len(x[3]) == 2 and slot(x[3][0]) and x[3][1][0] == 'agg' and x[3][1][1] == 'closure':
+            caps = x[3][1][3]
+            cls = [b for b in F.closures_of(ie) if b.canon == x[3][1][2]]
+            if len(cls) != 1:
+                return False, 'closure not found'
+            cl = cls[0]
+            crets = [y for _, d in ret_descs(F, cl) for y in flat(d)]
+            def bound(b):
+                return b[0] == 'upvar' and aft in caps and (b[1] == aft[2] or all(c == aft for c in caps))
+            def deadline(a):
+                return a[0] == 'param' and a[1] == 2   # the closure's only explicit parameter (local 1 is the environment)
+            if not crets or not all(le(y, deadline, bound) for y in crets):
+                return False, 'closure computes %s' % ' | '.join(D.render(y)[:80] for y in crets)
+            real += 1
+            continue
+        if le(x, lambda a: a[0] == 'field' and a[2] == '0' and a[1][0] == 'variant' and a[1][2] == 'Some' and slot(a[1][1]), lambda b: b == aft):
+            real += 1
+            continue
+        return False, 'returns %s' % D.render(x)[:100]
+    if not real:
+        return False, 'no deadline comparison'
+    return True, ''
+
+
 def rule_a(ctx):
     F = ctx.facts
     rs = roots(F)
@@ -103,13 +411,31 @@ def rule_a(ctx):
     # seeding: Connection.rng = StdRng::from_seed(rng_seed) ; Endpoint derives the seed from its own rng
     cn = ctx.pfn('Connection::new')
     fs = cn.calls_to('SeedableRng::from_seed')
-    ctx.check(bool(fs) and all(D.has_param(arg_desc(F, c, 0), name='rng_seed') for c in fs), 'a', 'connection_rng_seeded_from_endpoint', cn, cn.where(), 'StdRng::from_seed(rng_seed)', 'the connection rng is not seeded from the seed handed in by the endpoint')
+    ok = bool(fs) and all(D.has_param(arg_desc(F, c, 0), name='rng_seed') for c in fs)
+    why = 'the connection rng is not seeded from the seed handed in by the endpoint'
+    # the value STORED in Connection.rng is from_seed(<param rng_seed>) at every construction, and nothing re-assigns the field
+    cons = [c for c in constructions(F, 'connection::Connection', None, crate='quinn_proto') if c.adt.split('<')[0].endswith('connection::Connection')]
+    if not cons:
+        ok, why = False, 'no construction of Connection found'
+    for c in cons:
+        op = c.field_op('rng')
+        alts = flat(describer(F, c.body).operand(op, c.bb, c.idx)) if op is not None else []
+        good = bool(alts) and F.root_of(c.body).id == cn.id and all(_is_call(x, 'SeedableRng::from_seed') and len(x[3]) == 1 and x[3][0][0] == 'param' and x[3][0][2] == 'rng_seed' for x in alts)
+        if not good:
+            ok, why = False, 'Connection.rng is initialised with %s, not StdRng::from_seed(rng_seed)' % (D.render(describer(F, c.body).operand(op, c.bb, c.idx))[:100] if op is not None else '<no rng field>')
+    for w in field_writes(F, 'connection::Connection', 'rng', crate='quinn_proto'):
+        if w.kind in ('assign', 'callresult'):
+            ok, why = False, 'Connection.rng is re-assigned in %s' % F.root_of(w.body).short
+        if w.kind == 'mutborrow' and borrow_stores(F, w):
+            ok, why = False, 'Connection.rng is overwritten through a borrow in %s' % F.root_of(w.body).short
+    ctx.check(ok, 'a', 'connection_rng_seeded_from_endpoint', cn, cn.where(), 'Connection { rng: StdRng::from_seed(rng_seed) }', why)
     ac = ctx.pfn('Endpoint::add_connection')
-    fb = [c for c in ac.calls() if short(c.f).endswith('fill_bytes') and D.has_field(arg_desc(F, c, 0), 'rng')]
-    ctx.check(bool(fb), 'a', 'connection_seed_drawn_from_endpoint_rng', ac, ac.where(), 'self.rng.fill_bytes(&mut rng_seed)', 'per-connection seeds are not drawn from the endpoint rng')
+    okf, whyf = _seed_flows(F, ac, cn)
+    ctx.check(okf, 'a', 'connection_seed_drawn_from_endpoint_rng', ac, ac.where(), 'self.rng.fill_bytes(&mut rng_seed); Connection::new(.., rng_seed, ..)',
+              'per-connection seeds are not drawn from the endpoint rng: ' + whyf)
     en = ctx.pfn('Endpoint::new')
-    ok = bool(en.calls_to('SeedableRng::from_seed')) and bool([br for br in branches(F, en) if D.has_field(br.desc, 'rng_seed')])
-    ctx.check(ok, 'a', 'endpoint_uses_configured_seed', en, en.where(), 'Some(seed) -> StdRng::from_seed(seed)', 'the configured rng_seed is no longer used')
+    ok, why = _endpoint_seed(F, en)
+    ctx.check(ok, 'a', 'endpoint_uses_configured_seed', en, en.where(), 'Some(seed) -> Endpoint { rng: StdRng::from_seed(seed) }', 'the configured rng_seed is no longer used: ' + why)
 
 
 def rule_b(ctx):
@@ -138,10 +464,12 @@ def rule_c(ctx):
     ie = ht.calls_to('TimerTable::is_expired')
     st = [c for c in ht.calls_to('TimerTable::stop')]
     ctx.check(len(ie) == 1 and bool(st), 'c', 'timeout_shape', ht, ht.where(), 'is_expired + stop', 'handle_timeout lost its is_expired / stop structure')
+    guards = 0
     for e in ie:
         for br in branches(F, ht):
             inner, neg = peel_not(br.desc)
             if inner[0] == 'call' and is_site(inner, e):
+                guards += 1
                 t_no = br.target(1 if neg else 0)
                 t_yes = br.target(0 if neg else 1)
                 arms = [c for c in ht.calls() if c.is_('Connection::kill', 'Connection::on_loss_detection_timeout', 'Connection::ping', 'CidState::on_cid_timeout', 'PendingAcks::on_max_ack_delay_timeout')]
@@ -152,30 +480,49 @@ def rule_c(ctx):
                 # stop(timer) dominates every arm
                 stopped = all(any(ht.dominates(s.bb, a) for s in st) for a in arms_b)
                 ctx.check(stopped, 'c', 'expired_timer_stopped_before_arm', ht, e.where(), 'timers.stop(timer) dominates every arm', 'an expired timer is not stopped before its arm runs (repeated handle_timeout at one instant would re-run it)')
+    if guards != 1:
+        # fail closed: the two obligations above are only stated under a branch whose condition IS the is_expired result
+        ctx.bad('c', 'arms_only_for_expired_timers', ht, ht.where(), 'handle_timeout has %d branches directly on the result of timers.is_expired(timer, now) (expected 1): the expiry guard was reshaped or removed' % guards)
     ie_b = ctx.pfn('TimerTable::is_expired')
-    ok = any(D.has_call(x, 'Option::is_some_and') for _, x in ret_descs(F, ie_b)) or bool([b for b in F.closures_of(ie_b)])
-    cl = F.closures_of(ie_b)
-    okr = any(y[0] == 'bin' and y[1] == 'Le' for b in cl for _, x in ret_descs(F, b) for y in flat(x))
-    ctx.check(ok and okr, 'c', 'expiry_relation', ie_b, ie_b.where(), 'deadline <= after', 'is_expired relation changed')
+    ok, why = _expiry_relation(F, ie_b)
+    ctx.check(ok, 'c', 'expiry_relation', ie_b, ie_b.where(), 'self.data[timer] is Some(deadline) and deadline <= after', 'is_expired relation changed: ' + why)
     pt = ctx.pfn('Connection::poll_timeout')
-    ctx.check(bool(pt.calls_to('TimerTable::next_timeout')), 'c', 'poll_timeout_is_next_timeout', pt, pt.where(), 'timers.next_timeout()', 'poll_timeout no longer reports the timer table minimum')
+    rds = [x for _, d in ret_descs(F, pt) for x in flat(d)]
+    ok = bool(rds) and all(_is_call(x, 'TimerTable::next_timeout') and len(x[3]) == 1 and _self_field(x[3][0], 'timers') for x in rds)
+    ctx.check(ok, 'c', 'poll_timeout_is_next_timeout', pt, pt.where(), 'returns self.timers.next_timeout()',
+              'poll_timeout no longer reports the timer table minimum: it returns %s' % ' | '.join(D.render(x)[:120] for x in rds))
 
 
 def rule_d(ctx):
     F = ctx.facts
     pt = ctx.pfn('Connection::poll_transmit')
-    # the first dispatch on self.state: Drained edge returns None without reaching any builder
-    pb = [c.bb for c in pt.calls_to('PacketBuilder::new')]
+    # every site of poll_transmit that can build a packet (PacketBuilder::new directly or through a crate-local callee such
+    # as send_path_challenge / send_path_response) is unreachable for a drained connection: either it lies behind the
+    # dispatch on self.state and off its Drained edge, or it is guarded by `!self.state.is_closed()`
+    producers = [c for c in pt.calls() if c.is_('PacketBuilder::new') or (c.f in F.bodies and site_may_reach(F, c, ['PacketBuilder::new'], 2))]
+    ctx.floor('d', 'packet_producing_sites_in_poll_transmit', len(producers), 3)
+    pb = [c.bb for c in producers]
     st = F.adt('quinn_proto::connection::State')
     didx = [i for i, v in enumerate(st['variants']) if v['name'] == 'Drained'][0]
-    ok = False
+    disp = None
     for br in branches(F, pt):
-        if br.desc[0] == 'discr' and D.has_field(br.desc[1], 'state') and br.desc[1][0] == 'field' and all(pt.dominates(br.bb, p) for p in pb):
-            t = br.target(didx)
-            reach = pt.reachable_from(t, avoid=[br.bb])
-            ok = all(p not in reach for p in pb) and all(any(y[0] == 'agg' and y[2].endswith('None') for y in flat(describer(F, pt).place([0, []], r, term_idx(pt, r)))) for r in pt.return_blocks() if r in reach)
+        if br.desc[0] == 'discr' and br.desc[1][0] == 'field' and br.desc[1][2] == 'state' and br.target(didx) is not None:
+            disp = br
             break
-    ctx.check(ok, 'd', 'drained_connection_sends_nothing', pt, pt.where(), 'State::Drained -> return None before any packet is built', 'poll_transmit can build a packet for a drained connection')
+    closed_guards = bool_edges(ctx, pt, lambda d: d[0] == 'call' and d[1] == 'State::is_closed')
+    ok = disp is not None
+    unguarded = []
+    if disp is not None:
+        t = disp.target(didx)
+        reach = pt.reachable_from(t, avoid=[disp.bb])
+        ok = all(any(y[0] == 'agg' and y[2].endswith('None') for y in flat(describer(F, pt).place([0, []], r, term_idx(pt, r)))) for r in pt.return_blocks() if r in reach)
+        for c in producers:
+            behind_dispatch = pt.dominates(disp.bb, c.bb) and c.bb not in reach
+            behind_guard = any(truth and pt.dominates(br.bb, c.bb) and c.bb not in pt.reachable_from(tgt, avoid=[br.bb]) for br, truth, tgt in closed_guards)
+            if not (behind_dispatch or behind_guard):
+                unguarded.append('%s at %s' % (short(c.f), c.where()))
+        ok = ok and not unguarded
+    ctx.check(ok, 'd', 'drained_connection_sends_nothing', pt, pt.where(), 'State::Drained -> return None; every packet-producing site behind it or behind !is_closed()', 'poll_transmit can build a packet for a drained connection: %s' % (unguarded if disp is not None else 'no dispatch on self.state'))
     pdp = ctx.pfn('Connection::process_decrypted_packet')
     ok = False
     for br in branches(F, pdp):
@@ -195,23 +542,41 @@ def rule_d(ctx):
         ctx.check(okc, 'd', 'no_timer_left_on_drained_connection', hp, e.where(), 'timers.stop(Timer::Close) follows the transition to Drained',
                   'a connection drained by a packet (stateless reset while closing) keeps its Close timer: poll_timeout still reports a deadline and servicing it emits a second Drained')
     k = ctx.pfn('Connection::kill')
-    ctx.check(must_call(F, k, ['Connection::close_common'], 0), 'd', 'kill_stops_all_timers', k, k.where(), 'close_common()', 'kill leaves timers armed on a drained connection')
+    # every path through kill passes a site that stops EVERY timer (loop over Timer::VALUES calling timers.stop(element) in each
+    # iteration), directly or inside a callee such as close_common — the callee's body is checked, its name is not trusted
+    sa = _stop_all_sites(F, k, 2)
+    okk = bool(sa) and path_avoiding(k, [0], k.return_blocks(), sa) is None
+    ctx.check(okk, 'd', 'kill_stops_all_timers', k, k.where(), 'close_common(): for &timer in &Timer::VALUES { self.timers.stop(timer) }',
+              'kill leaves timers armed on a drained connection (no loop over Timer::VALUES stopping each element on every path: %s)' % ('a path avoids it' if sa else 'none found in kill or its callees'))
 
 
 def rule_e(ctx):
     F = ctx.facts
     n = 0
-    bad = []
+    ITER = ('iter', 'iter_mut', 'keys', 'values', 'values_mut', 'drain', 'into_iter', 'retain', 'into_keys', 'into_values', 'extract_if')
+    CONSUME = ('extend', 'from_iter', 'chain', 'zip')   # std adaptors that iterate an argument passed as `impl IntoIterator`
     for c in F.all_calls('quinn_proto'):
         sh = short(c.f)
-        if sh.split('::')[0] in ('HashMap', 'HashSet') and sh.split('::')[-1] in ('iter', 'iter_mut', 'keys', 'values', 'values_mut', 'drain', 'into_iter', 'retain', 'into_keys', 'into_values', 'extract_if'):
-            n += 1
-            recv = c.body.local_ty(c.args[0][1][0]) if c.args and c.args[0][0] in ('c', 'm') else ''
-            det = 'FxBuildHasher' in recv or 'BuildHasherDefault' in recv
-            r = F.root_of(c.body)
-            ctx.check(det, 'e', 'no_random_state_iteration', r, c.where(), '%s over %s' % (sh, recv[:70]), 'iteration over a RandomState-hashed collection in the protocol core (order differs between runs): %s over %s' % (sh, recv[:100]))
+        meth = sh.split('::')[-1]
+        if meth not in ITER and meth not in CONSUME:
+            continue
+        tys = [(i, c.body.local_ty(a[1][0])) for i, a in enumerate(c.args) if a[0] in ('c', 'm') and not a[1][1]]
+        named = sh.split('::')[0] in ('HashMap', 'HashSet') and meth in ITER
+        if meth in ITER:
+            # the receiver decides (covers `for x in &map` == <&HashMap as IntoIterator>::into_iter, which carries no HashMap:: prefix)
+            cands = [t for i, t in tys if i == 0]
+        else:
+            cands = [t for i, t in tys if i >= 1 and c.f not in F.bodies]
+        colls = [(t, _hash_coll(t)) for t in cands if _hash_coll(t)]
+        if not colls and not named:
+            continue
+        n += 1
+        recv = colls[0][0] if colls else (cands[0] if cands else '')
+        det = bool(colls) and all(_det_hasher(h) for _, (_, h) in colls)
+        r = F.root_of(c.body)
+        ctx.check(det, 'e', 'no_random_state_iteration', r, c.where(), '%s over %s' % (sh, recv[:70]), 'iteration over a RandomState-hashed collection in the protocol core (order differs between runs): %s over %s' % (sh, recv[:100]))
     ctx.ok('e', 'hash_iteration_sites', 'quinn_proto', '', '%d hash-collection iteration sites, all with a deterministic hasher' % n)
-
+    ctx.floor('e', 'hash_iteration_sites', n, 4)
 
 def rule_f(ctx):
     F = ctx.facts
@@ -224,8 +589,12 @@ def rule_f(ctx):
         n += 1
         a = arg_desc(F, c, 2)
         ok = not any(x[0] == 'call' and (x[1].endswith('::now') or x[1].endswith('elapsed')) for x in walk(a))
+        # inter-procedural: no crate-local function or closure in the expression may reach a clock / entropy source
+        clocky = _clock_reachers(F)
+        via = sorted({x[1] for x in walk(a) if x[0] == 'call' and x[2] in clocky} | {short(x[2]) for x in walk(a) if x[0] == 'agg' and x[1] in ('closure', 'coroutine') and x[2] in clocky})
+        ok = ok and not via
         src = D.has_param(a, name='now') or any(x[0] == 'param' for x in walk(a)) or any(x[0] == 'field' for x in walk(a)) or any(x[0] == 'call' for x in walk(a))
-        ctx.check(ok and src, 'f', 'deadlines_derive_from_inputs', r, c.where(), D.render(a)[:90], 'a timer deadline is computed from a clock read: ' + D.render(a)[:140])
+        ctx.check(ok and src, 'f', 'deadlines_derive_from_inputs', r, c.where(), D.render(a)[:90], 'a timer deadline is computed from a clock read%s: ' % (' (through %s)' % ', '.join(via) if via else '') + D.render(a)[:140])
     ctx.floor('f', 'timer_set_sites', n, 9)
     # Instant API surface used by the core
     used = set()
@@ -238,6 +607,145 @@ def rule_f(ctx):
     ctx.check(not bad, 'f', 'instant_api_surface', 'Instant', '', '%d distinct Instant operations, all translation-invariant' % len(used), 'the core uses Instant operations that are not translation-invariant: %s' % bad)
 
 
+
+# --------------------------------------------------------------------------
+# (g) a timer that is re-armed from a queue makes progress: the expired record is consumed before the re-arm is requested
+# --------------------------------------------------------------------------
+
+def _is_vecdeque_call(y):
+    return isinstance(y, tuple) and y[0] == 'call' and ('VecDeque::' in y[2] or y[1].startswith('VecDeque::'))
+
+
+def _front_queue(F, nt):
+    """`nt` (the function whose Some payload is the PushNewCid deadline) returns a value read from `self.Q.front()` and from no
+    other VecDeque access; alternatives that read nothing are `None`.  Returns (Q, '') or (None, why)."""
+    alts = [x for _, d in ret_descs(F, nt) for x in flat(d)]
+    if not alts:
+        return None, 'no return value'
+    qs = set()
+    for x in alts:
+        vd = [y for y in walk(x) if _is_vecdeque_call(y)]
+        if not vd:
+            if any(y[0] == 'agg' and y[2].endswith('None') for y in walk(x)) and not any(y[0] == 'call' for y in walk(x)):
+                continue
+            return None, 'it may return %s, which is not read from the head of the expiry queue' % D.render(x)[:100]
+        for y in vd:
+            if y[1].split('::')[-1] == 'front' and len(y[3]) == 1 and isinstance(y[3][0], tuple) and y[3][0][0] == 'field' and _self_field(y[3][0], y[3][0][2]):
+                qs.add(y[3][0][2])
+            else:
+                return None, 'it reads the queue through %s' % D.render(y)[:100]
+    if len(qs) != 1:
+        return None, 'no single queue field'
+    return qs.pop(), ''
+
+
+def _is_mut_self_method(F, c, recv_field):
+    """call c is a crate-local function taking `&mut <param>.recv_field` as its receiver"""
+    if c.k != 'item' or c.f not in F.bodies or not c.args:
+        return False
+    cb = F.bodies[c.f]
+    if cb.kind != 'fn' or cb.crate != 'quinn_proto' or cb.argc < 1 or not cb.locals[1][0].startswith('&mut'):
+        return False
+    return _self_field(arg_desc(F, c, 0), recv_field)
+
+
+def _pop_sites(F, body, q, depth=1):
+    """blocks of `body` that remove the head of self.q: `self.q.pop_front()`, or a call handing the whole `self` to a crate-local
+    function every normal path of which does so"""
+    res = set()
+    live = body.live_blocks()
+    for c in body.calls():
+        if c.bb not in live or not c.args:
+            continue
+        if short(c.f).split('::')[-1] == 'pop_front' and 'VecDeque' in canon(c.f) and _self_field(arg_desc(F, c, 0), q):
+            res.add(c.bb)
+        elif depth > 0 and c.k == 'item' and c.f in F.bodies and F.bodies[c.f].kind == 'fn' and F.bodies[c.f].crate == 'quinn_proto' and not is_noise(c):
+            a0 = arg_desc(F, c, 0)
+            if isinstance(a0, tuple) and a0[0] == 'param' and a0[1] == 1:
+                cb = F.bodies[c.f]
+                sub = _pop_sites(F, cb, q, depth - 1)
+                if sub and path_avoiding(cb, [0], cb.return_blocks(), sub) is None:
+                    res.add(c.bb)
+    return res
+
+
+def rule_g(ctx):
+    F = ctx.facts
+    from rules import C08
+    # 1. the deadline of every arming of Timer::PushNewCid IS the Some payload of <self.S>.next(): S = the CID state, next = its peek
+    sets = [c for c in F.callers_of('TimerTable::set', crate='quinn_proto') if F.root_of(c.body).short != 'TimerTable::set' and c.bb in c.body.live_blocks()
+            and len(c.args) >= 3 and C08.timer_const(arg_desc(F, c, 1), 'PushNewCid')]
+    ctx.floor('g', 'push_new_cid_arming_sites', len(sets), 1)
+    peeks = {}
+    for c in sets:
+        r = F.root_of(c.body)
+        alts = flat(arg_desc(F, c, 2))
+        good = True
+        for x in alts:
+            src = x[1][1] if (x[0] == 'field' and x[2] == '0' and x[1][0] == 'variant' and x[1][2] == 'Some') else None
+            if not (src is not None and src[0] == 'call' and src[2] in F.bodies and F.bodies[src[2]].crate == 'quinn_proto' and len(src[3]) == 1
+                    and isinstance(src[3][0], tuple) and src[3][0][0] == 'field' and src[3][0][1][0] == 'param'):
+                good = False
+                continue
+            peeks.setdefault(src[2], set()).add(src[3][0][2])
+        ctx.check(good, 'g', 'cid_timer_armed_from_expiry_queue', r, c.where(), D.render(arg_desc(F, c, 2))[:90],
+                  'Timer::PushNewCid is armed with %s, not with the head of the CID expiry queue: after the timer is serviced the re-arm need not move past `now`' % D.render(arg_desc(F, c, 2))[:120])
+    if len(peeks) != 1 or len(list(peeks.values())[0]) != 1:
+        if sets:
+            ctx.bad('g', 'cid_timer_armed_from_expiry_queue', F.root_of(sets[0].body), sets[0].where(), 'no single peek function supplies the PushNewCid deadline (%s)' % sorted(short(k) for k in peeks))
+        return
+    nt = F.bodies[list(peeks)[0]]
+    state_field = list(list(peeks.values())[0])[0]
+    q, why = _front_queue(F, nt)
+    ctx.check(q is not None, 'g', 'cid_deadline_is_queue_front', nt, nt.where(), 'returns self.%s.front().map(..)' % q, 'the PushNewCid deadline is not the head of the expiry queue: ' + why)
+    if q is None:
+        return
+    # 2. handle_timeout asks the endpoint for identifiers (whose arrival re-arms the timer from the queue head) only after a call
+    #    on the CID state that removes the expired head on EVERY path
+    ht = ctx.pfn('Connection::handle_timeout')
+    live = ht.live_blocks()
+    reqs = [c for c in constructions(F, 'EndpointEventInner', 'NeedIdentifiers', crate='quinn_proto') if F.root_of(c.body).id == ht.id and c.body.id == ht.id and c.bb in live]
+    ctx.floor('g', 'identifier_requests_in_handle_timeout', len(reqs), 1)
+    cands = [c for c in ht.calls() if c.bb in live and not is_noise(c) and _is_mut_self_method(F, c, state_field)]
+    heads = {c.bb for c in ht.calls_to('TimerTable::is_expired')}
+    rets = set(ht.return_blocks())
+    consuming, partial = [], []
+    for c in cands:
+        cb = F.bodies[c.f]
+        pops = _pop_sites(F, cb, q, 1)
+        p = path_avoiding(cb, [0], cb.return_blocks(), pops) if pops else [0]
+        if p is None:
+            consuming.append(c)
+        elif pops:
+            partial.append((c, cb, p))
+    for e in reqs:
+        def covers(c):
+            return (c.bb != e.bb and ht.dominates(c.bb, e.bb)) or path_avoiding(ht, list(ht.succ[e.bb]), rets | heads, {c.bb}) is None
+        if any(covers(c) for c in consuming):
+            ctx.ok('g', 'expired_cid_record_consumed', ht, e.where(), 'NeedIdentifiers is only emitted together with %s, every path of which pops self.%s' % (', '.join(sorted({short(c.f) for c in consuming if covers(c)})), q))
+            continue
+        hit = [(c, cb, p) for c, cb, p in partial if covers(c)]
+        if hit:
+            for c, cb, p in hit:
+                ctx.bad('g', 'expired_cid_record_consumed', cb, cb.where(), '%s keeps the expired record at the head of self.%s on the path %s, while handle_timeout still requests identifiers: their arrival re-arms Timer::PushNewCid '
+                        'from that same record (deadline <= now), so servicing timeouts at one instant never reaches a state whose next timeout is in the future' % (cb.short, q, fmt_path(cb, p)))
+        else:
+            ctx.bad('g', 'expired_cid_record_consumed', ht, e.where(), 'handle_timeout requests identifiers (re-arming Timer::PushNewCid from the head of self.%s.%s) on a path that does not pass a call removing the expired head' % (state_field, q))
+    # 3. the consuming function hands `&mut self.q` to nothing but pop_front (a push_front / insert would put an expired record back)
+    for c in consuming + [x[0] for x in partial]:
+        cb = F.bodies[c.f]
+        for x in F.family(cb):
+            for o in x.calls():
+                if o.bb not in x.live_blocks() or is_noise(o):
+                    continue
+                for i, a in enumerate(o.args):
+                    if a[0] in ('c', 'm') and not a[1][1] and x.local_ty(a[1][0]).startswith('&mut') and 'VecDeque<' in x.local_ty(a[1][0]) and D.has_field(arg_desc(F, o, i), q) \
+                            and short(o.f).split('::')[-1] != 'pop_front':
+                        ctx.bad('g', 'expired_cid_record_not_reinserted', cb, o.where(), '%s mutates self.%s through %s while servicing the CID timer: an expired record may be put back at the head' % (cb.short, q, short(o.f)))
+    if consuming:
+        ctx.ok('g', 'expired_cid_record_not_reinserted', F.bodies[consuming[0].f], F.bodies[consuming[0].f].where(), 'self.%s is only popped while servicing the timer' % q)
+
+
 def run(ctx):
     rule_a(ctx)
     rule_b(ctx)
@@ -245,4 +753,5 @@ def run(ctx):
     rule_d(ctx)
     rule_e(ctx)
     rule_f(ctx)
+    rule_g(ctx)
     ctx.assume('component boundaries: crypto::*, congestion::Controller(Factory), ConnectionIdGenerator, TokenLog, TokenStore, TimeSource, qlog sinks are inputs of the state machine')
